@@ -1,0 +1,27 @@
+//go:build verif
+
+package annotation
+
+import "go/types"
+
+// VerifObservedMap builds an ObservedMap holding explicit shallow annotations for the given global
+// variables and call-site parameters. Only compiled with the `verif` build tag (verification harness).
+func VerifObservedMap(globals map[*types.Var]bool, callSiteParams map[CallSite][]ArgLocAndVal) *ObservedMap {
+	m := &ObservedMap{
+		fieldAnnMap:             map[*types.Var]Val{},
+		funcParamAnnMap:         map[*types.Func][]Val{},
+		funcRetAnnMap:           map[*types.Func][]Val{},
+		funcRecvAnnMap:          map[*types.Func]Val{},
+		deepTypeAnnMap:          map[*types.TypeName]Val{},
+		globalVarsAnnMap:        map[*types.Var]Val{},
+		funcCallSiteParamAnnMap: map[CallSite][]ArgLocAndVal{},
+		funcCallSiteRetAnnMap:   map[CallSite][]Val{},
+	}
+	for v, b := range globals {
+		m.globalVarsAnnMap[v] = Val{IsNilable: b, IsNilableSet: true}
+	}
+	for cs, vals := range callSiteParams {
+		m.funcCallSiteParamAnnMap[cs] = vals
+	}
+	return m
+}
